@@ -102,6 +102,12 @@ func (db *Backend) ListBucket(name string, prefix *gofakes3.Prefix, page gofakes
 
 	var lastMatchedPart string
 
+	// A marker that lies inside a common prefix means the previous page ended
+	// with that prefix; the rest of its keys must not report it again:
+	if page.Marker != "" && prefix.Match(page.Marker, &match) && match.CommonPrefix {
+		lastMatchedPart = match.MatchedPart
+	}
+
 	for iter.Next() {
 		item := iter.Value().(*bucketObject)
 
